@@ -301,10 +301,9 @@ class Gen:
     """Random programs obeying the placement rules of the analyzer (break/continue inside a loop of the
     same function, `in` only inside a do-expression whose block ends with `in`, fallthrough last in a
     case followed by another block) and, unless asked otherwise, the two restrictions of the partial
-    theorem (deferred blocks do not jump out of themselves; no defer directly in a case block ending
-    in fallthrough)."""
+    theorem (deferred blocks do not jump out of themselves and contain no defer)."""
 
-    def __init__(self, rng, allow_ft_defer=False, allow_escape=False, allow_nested_defer=False, any_late=False, maxdepth=4):
+    def __init__(self, rng, allow_ft_defer=True, allow_escape=False, allow_nested_defer=False, any_late=False, maxdepth=4):
         self.rng = rng
         self.n = 0
         self.allow_ft_defer = allow_ft_defer
